@@ -832,6 +832,16 @@ def coins_text(coins):
 
 
 def generate():
+    try:
+        return _generate()
+    except Exception as e:  # noqa -- anything unexpected is a translation failure, never a crash of the build
+        if type(e).__name__ == "TranslateError":
+            raise
+        import traceback
+        fail("gen_coins: unexpected %s: %s (%s)" % (type(e).__name__, e, traceback.format_exc(limit=2).replace("\n", " | ")))
+
+
+def _generate():
     d = collect()
     L = ["From BU Require Import Model.Coins.\n"]
     L.append("(* bip_utils/slip/slip44/slip44.py *)")
